@@ -90,3 +90,13 @@ Example C19_columns_demo :
   | _ => False
   end.
 Proof. exact cols_demo. Qed.
+
+(* ---- the code generator hands those ranges on (Proofs/RefCols.v) ---- *)
+From BL Require Import Lang.Ast Proofs.RefCols.
+
+(* for every line that parses and every statement of it, of any form: each reference to a program line that the statement's code
+   leaves for the linker (non-negative symbol) carries the character range of a number token of that line *)
+Theorem C19_line_references_carry_number_ranges : forall n toks ast s, parse n toks = Ok ast -> In s ast ->
+  forall a c sym, In (a, (c, sym)) (l_unlinked (snd (fst (cg_stmt s)))) -> (0 <= sym)%Z -> num_range toks c.
+Proof. exact line_references_carry_number_ranges. Qed.
+Print Assumptions C19_line_references_carry_number_ranges.
